@@ -488,7 +488,7 @@ func TestC16Bytes(t *testing.T) {
 	rep.Extra["max_bytes_read_from_a_body"] = st.maxRead
 	rep.Extra["configured_limit"] = int64(httpLimit)
 	if st.ok == 0 || st.withPeers == 0 || st.trackerErr == 0 || st.decodeErr == 0 || st.overLimitBodies == 0 || st.limitTruncated == 0 || nPipe == 0 {
-		core.HarnessError("vacuous HTTP bytes run: %+v", st)
+		rep.Vacuous("vacuous HTTP bytes run: %+v", st)
 	}
 	rep.Finish()
 }
